@@ -386,6 +386,29 @@ fn listvar_line(s: &str, calls: &[Vec<u8>], hint: Option<Option<usize>>) -> Stri
     )
 }
 
+/// the library's own `TryFromIter` impls must collect every item of ANY iterator (also one without a size hint)
+pub fn run_tryfromiter(ctx: &mut Ctx) {
+    use smallvec::SmallVec;
+    use std::collections::{BTreeMap, BTreeSet};
+    for n in [0usize, 1, 2, 7, 100] {
+        let tag = n.to_string();
+        let mk = || { let mut k = 0usize; std::iter::from_fn(move || { if k < n { k += 1; Some(k as u16) } else { None } }) };
+        let want: Vec<u16> = (1..=n as u16).collect();
+        let v = <Vec<u16> as TryFromIter<u16>>::try_from_iter(mk());
+        ctx.out.r("C16", "listvar", matches!(&v, Ok(x) if *x == want), &["vec_try_from_iter_collects_all", "tryfromiter", &tag]);
+        let v = <Vec<u16> as TryFromIter<u16>>::try_from_iter(want.iter().copied().filter(|_| true));
+        ctx.out.r("C16", "listvar", matches!(&v, Ok(x) if *x == want), &["vec_try_from_iter_collects_all_filtered", "tryfromiter", &tag]);
+        let v = <Vec<u16> as TryFromIter<u16>>::try_from_iter(vec![want.clone(), want.clone()].into_iter().flatten());
+        ctx.out.r("C16", "listvar", matches!(&v, Ok(x) if x.len() == 2 * n), &["vec_try_from_iter_collects_all_flatten", "tryfromiter", &tag]);
+        let v = <SmallVec<[u16; 2]> as TryFromIter<u16>>::try_from_iter(mk());
+        ctx.out.r("C16", "listvar", matches!(&v, Ok(x) if x[..] == want[..]), &["smallvec_try_from_iter_collects_all", "tryfromiter", &tag]);
+        let v = <BTreeSet<u16> as TryFromIter<u16>>::try_from_iter(mk());
+        ctx.out.r("C16", "listvar", matches!(&v, Ok(x) if x.len() == n), &["btreeset_try_from_iter_collects_all", "tryfromiter", &tag]);
+        let v = <BTreeMap<u16, u16> as TryFromIter<(u16, u16)>>::try_from_iter(mk().map(|k| (k, k)));
+        ctx.out.r("C16", "listvar", matches!(&v, Ok(x) if x.len() == n), &["btreemap_try_from_iter_collects_all", "tryfromiter", &tag]);
+    }
+}
+
 pub fn run_listvar(ctx: &mut Ctx) {
     let mut inputs: Vec<Vec<u8>> = vec![vec![]];
     // valid encodings of item lists and their mutations
@@ -461,7 +484,7 @@ pub fn run_listvar(ctx: &mut Ctx) {
         let announced = if b.len() >= 4 { Some(u32::from_le_bytes([b[0], b[1], b[2], b[3]]) as usize / 4) } else { None };
         let count = match &res0 { Ok(Some(v)) => Some(v.len()), _ => None };
         // limits
-        let mut limits: Vec<usize> = vec![0, 1, 2, 3];
+        let mut limits: Vec<usize> = vec![0, 1, 2, 3, 1 << 30, 1 << 62, (1 << 62) + 1, 1 << 63, 3 << 62, usize::MAX / 4 + 1, usize::MAX - 1, usize::MAX];
         if let Some(c) = count {
             limits.extend([c.saturating_sub(1), c, c + 1]);
         }
